@@ -171,6 +171,25 @@ Theorem c07_errors_nonempty :
 Proof. exact errors_nonempty_proof. Qed.
 Print Assumptions c07_errors_nonempty.
 
+(* OPEN (finding wrong-kind-data-aborts-response): an `_entities` list of the right length whose items are
+   numbers / strings / lists ([FtItems]; also `data` itself of the wrong kind on a root fetch) is not a failure
+   the loader isolates: MergeValues returns ErrMergeDifferentTypes, mergeResult returns it, the resolve aborts
+   and NO response is written.  These kinds are therefore not [loud]; every other shape of "the selected data path
+   holds null / a wrong kind / nothing" on an entity or batch fetch is ([FtShape], covered by the theorems above). *)
+Theorem c07_wrong_kind_aborts_refuted :
+  exists answer root_answer kind_of t root F,
+    forallb (fetch_wf kind_of) (fetches_of t) = true /\ root_wf root = true /\
+    (exists rq ik we s5, In rq (ls_reqs (run answer root_answer kind_of no_faults t)) /\ F (rq_fetch rq) = Some (FtItems ik we s5)) /\
+    o_failed (finish root (run answer root_answer kind_of F t)) = true.
+Proof. exact wrong_kind_aborts_proof. Qed.
+Print Assumptions c07_wrong_kind_aborts_refuted.
+
+(* non-vacuity of [loud] for the null / wrong-kind shapes: ProofsExamples.p1_null_entities_list *)
+Example c07_loud_shapes :
+  forall sh we s5, loud FEntity (FtShape sh we s5) = true /\ loud FBatch (FtShape sh we s5) = true /\
+                   loud FSingle (FtShape sh we s5) = false.
+Proof. intros. repeat split; reflexivity. Qed.
+
 (* valid_json (corollary of C02.resolve_refines_complete): whatever the loader state, the data member
    of the response is the marshalling of the C02 completion of the merged data (or `null`), the
    renderer neither panics nor reports a print error *)
